@@ -46,10 +46,19 @@ structure EnvOK (hash : Bytes → Digest) (env : Env) : Prop where
   chunk_flatten : ∀ bs, (env.chunk bs).flatten = bs
   ord_sub : ∀ l x, x ∈ env.ord l → x ∈ l
 
-/-- per-operation side conditions: the registry is honest; (partial) no download debris -/
+/-- per-operation side conditions: the registry is honest, and whatever an earlier, interrupted
+pull left behind for the digests this pull will download is consistent with what the registry
+serves (`PartOK`: a readable part record describes the blob and the bytes it declares complete are in
+the `-partial` file; no record / a torn record / no `-partial` file are all fine). A store without
+download debris satisfies it (`opOK_of_noDebris`). -/
 def OpOK (hash : Bytes → Digest) (st : Store) : Op → Prop
-  | .pull reg _ _ => (∀ d data, reg d = some data → hash data = d) ∧ NoPullDebris st
+  | .pull reg _ m => (∀ d data, reg d = some data → hash data = d) ∧ PullPre reg st (m.all.map Layer.digest)
   | _ => True
+
+theorem opOK_of_noDebris {hash : Bytes → Digest} {st : Store} (reg : Digest → Option Bytes) (n : Name) (m : Man)
+    (hreg : ∀ d data, reg d = some data → hash data = d) (h : NoPullDebris st) :
+    OpOK hash st (.pull reg n m) :=
+  ⟨hreg, fun d _ _ data _ => h.partOK d data⟩
 
 /-- Every effect of every operation is issued in a state in which it cannot break the invariant. -/
 theorem exec_seqOK {hash : Bytes → Digest} {env : Env} (henv : EnvOK hash env) {st : Store}
@@ -58,7 +67,7 @@ theorem exec_seqOK {hash : Bytes → Digest} {env : Env} (henv : EnvOK hash env)
   cases op with
   | upload k d body => exact (upload_spec env henv.hash_eq k d body st).1
   | create n ups file datas cfg => exact create_seqOK env henv.hash_eq n ups file datas cfg st
-  | copy src dst => exact copy_seqOK src dst st
+  | copy src dst => exact copy_seqOK env src dst st hinv
   | delete n => exact delete_seqOK n st
   | pull reg n m =>
     exact pull_seqOK env henv.hash_eq henv.chunk_flatten henv.ord_sub reg hop.1 n m st hinv hop.2
@@ -87,7 +96,7 @@ theorem crash_safe {hash : Bytes → Digest} {env : Env} (henv : EnvOK hash env)
 /-! ## witnesses of the defects the model shares with the code (F19) -/
 
 def wHash : Bytes → Digest := fun bs => if bs = [1] then "d1" else if bs = [2] then "d2" else "x"
-def wEnv : Env := ⟨wHash, fun bs => [bs], id⟩
+def wEnv : Env := { hash := wHash, chunk := fun bs => [bs], ord := id }   -- pinned variant
 def wMan1 : Man := ⟨[], ⟨"d1", 1⟩⟩
 def wMan2 : Man := ⟨[], ⟨"d2", 1⟩⟩
 /-- two models a (layer d1) and c (layer d2) -/
@@ -144,7 +153,8 @@ theorem F19b_torn_part_record_blocks_repull :
 example : EnvOK wHash wEnv := ⟨rfl, fun bs => by simp [wEnv], fun _ _ h => h⟩
 
 example : OpOK wHash wStoreTorn' wPull := by
-  refine ⟨?_, ?_⟩
+  show OpOK wHash wStoreTorn' (.pull wReg "f" wMan2)
+  apply opOK_of_noDebris
   · intro d data h
     simp only [wReg] at h
     split at h
